@@ -156,9 +156,9 @@ func htlcPreimages(lk *lockKeys) map[string]string {
 func runLocks(r *core.Run, kind string) {
 	id := map[string]string{"P2PK": "C12", "HTLC": "C13"}[kind]
 	if kind == "P2PK" {
-		r.Rule("function level: every lock configuration (n_sigs absent/0..4 x co-signers 0..3 x locktime absent/past/future x refund keys 0..2 x sigflag absent/SIG_INPUTS/SIG_ALL) x every witness class (none, garbage, empty, wrong message, foreign key, one valid, same signature twice, two different valid signatures of one key, exact threshold, threshold-1, more, refund key, co-signer only, repeated key inside the threshold) through nut11.VerifyP2PKLockedProof vs. an independent evaluator (accepted => authorised; the library helper's own witness must be accepted); mint level: really minted locked proofs swapped / melted alone and among plain proofs at every position, with unsigned / helper-signed / threshold-signed / partly signed outputs; wallet level: SendToPubkey with every tag combination of its API, redeemed by the receiver's Wallet.Receive; non-trivial = distinct (configuration shape, sigflag, witness class, position, outputs) combinations for which a verdict was compared")
+		r.Rule("function level: every lock configuration (n_sigs absent/0..4 x co-signers 0..3 x locktime absent/past/future x refund keys 0..2 x sigflag absent/SIG_INPUTS/SIG_ALL) x every witness class (none, garbage, empty, wrong message, foreign key, one valid, same signature twice, two different valid signatures of one key, exact threshold, threshold-1, more, refund key, co-signer only, repeated key inside the threshold) through nut11.VerifyP2PKLockedProof vs. an independent evaluator (accepted => authorised; the library helper's own witness must be accepted); mint level: really minted locked proofs swapped / melted alone and among plain proofs at every position, with unsigned / helper-signed / threshold-signed / partly signed outputs; wallet level: SendToPubkey with every tag combination of its API, redeemed by the receiver's Wallet.Receive; wallet level: ecash locked through SendToPubkey / HTLCLockedProofs (also with a threshold of one naming a co-signer whose key the harness holds) is presented to the mint with witnesses of several classes before the receiver redeems it, every verdict judged by the independent evaluator on the configuration the sender asked for (weaker-than-requested / stricter-than-requested); non-trivial = distinct (configuration shape, sigflag, witness class, position, outputs) combinations for which a verdict was compared")
 	} else {
-		r.Rule("function level: every HTLC configuration (hash well-formed / 62 / 66 chars / non-hex / upper-case x n_sigs absent/0..3 x pubkeys 0..3 x locktime absent/past/future x refund 0..2 x sigflag) x preimage (right / wrong / non-hex / empty / odd length / upper-case) x signature witness classes through nut14.VerifyHTLCProof vs. an independent evaluator (accepted => authorised); the witnesses produced by AddWitnessHTLC / AddWitnessHTLCToOutputs must be accepted; mint level: really minted hash-locked proofs through Mint.Swap with unsigned / helper-made / hand-made output witnesses; wallet level: HTLCLockedProofs with every tag combination of its API, redeemed by Wallet.ReceiveHTLC (right preimage accepted, wrong one refused); non-trivial = distinct (configuration shape, sigflag, hash class, preimage class, witness class, position, outputs) combinations compared")
+		r.Rule("function level: every HTLC configuration (hash well-formed / 62 / 66 chars / non-hex / upper-case x n_sigs absent/0..3 x pubkeys 0..3 x locktime absent/past/future x refund 0..2 x sigflag) x preimage (right / wrong / non-hex / empty / odd length / upper-case) x signature witness classes through nut14.VerifyHTLCProof vs. an independent evaluator (accepted => authorised); the witnesses produced by AddWitnessHTLC / AddWitnessHTLCToOutputs must be accepted; mint level: really minted hash-locked proofs through Mint.Swap with unsigned / helper-made / hand-made output witnesses; wallet level: HTLCLockedProofs with every tag combination of its API, redeemed by Wallet.ReceiveHTLC (right preimage accepted, wrong one refused); wallet level: ecash locked through SendToPubkey / HTLCLockedProofs (also with a threshold of one naming a co-signer whose key the harness holds) is presented to the mint with witnesses of several classes before the receiver redeems it, every verdict judged by the independent evaluator on the configuration the sender asked for (weaker-than-requested / stricter-than-requested); non-trivial = distinct (configuration shape, sigflag, hash class, preimage class, witness class, position, outputs) combinations compared")
 	}
 	r.Assume("lock times are 10^6 s away from the present; lists naming one key twice are not generated; over-rejection outside the helpers' canonical witnesses is an observation, not a violation")
 	reps := pick(r, 1, 12)
